@@ -68,3 +68,12 @@ Definition run_fetch (cpu : Z) (regs : list (Z * Z)) (ip l : Z) : Z :=
   | Ret (Some b) => if (cpu =? 0) && (l <=? Z.of_nat (length b)) && (l <=? MAX_INSTRUCTION_LENGTH) then 1 else 0
   | _ => 3
   end.
+
+(* U cases: amd64 crash at `jmp [rbx]` (ff 23 at 0x400000); the regions arrive with their bytes.  Pinned by the
+   correspondence: the instruction decodes iff both of its bytes are fetched.  Some v = Update to v, None = no update *)
+Definition run_read_u64 (regs : list (Z * list Z)) (addr : Z) : option Z :=
+  let rs := map (fun e => {| r_base := fst e; r_size := Z.of_nat (length (snd e)); r_bytes := snd e |}) regs in
+  match fetch_instruction_bytes Debug rs 4194304 with
+  | Ret (Some b) => if 2 <=? Z.of_nat (length b) then read_u64_at rs addr else None
+  | _ => None
+  end.
